@@ -212,3 +212,28 @@ where
         }
     }
 }
+
+#[cfg(feature = "verif")]
+impl<T> Router<T> {
+    /// Canonical (sorted) rendering of the whole matcher hierarchy and of the
+    /// route table (verification hook, read only)
+    pub fn verif_snapshot(&self) -> String {
+        let mut ids: Vec<&String> = self.routes.keys().collect();
+        ids.sort();
+
+        format!("R{{routes:{:?},matcher:{}}}", ids, self.matcher.verif_snapshot())
+    }
+
+    /// Ids of the routes whose capture regex (path or host) is currently compiled
+    pub fn verif_compiled_captures(&self) -> Vec<String> {
+        let mut ids: Vec<String> = self
+            .routes
+            .values()
+            .filter(|route| route.verif_capture_compiled())
+            .map(|route| route.id().to_string())
+            .collect();
+        ids.sort();
+
+        ids
+    }
+}
